@@ -88,6 +88,11 @@ def cases(tier, rng):
             if qt == 1:
                 for n in (range(440, 500) if thorough else range(466, 482)):
                     cs.append(mk(qt, codec, dom, "frag none %d %s" % (n, hx(content("cycle", n, rng))), "tag-capacity", n, "cycle"))
+            # many records: the order tags of CNAME (two base-32 characters), MX and SRV (preference / priority) have to keep more than
+            # 32 records in order
+            if qt in (5, 15, 33) and codec in (84, 86):
+                for n in ((4700, 6000, 8000) if thorough else (6000,)):
+                    cs.append(mk(qt, codec, b"example.org", "frag none %d %s" % (n, hx(content("cycle", n, rng))), "many-records", n, "cycle"))
             # error and status responses
             for e in (ERRS if thorough else [rng.choice(ERRS), rng.choice(ERRS)]) + ["custom:" + bytes(b or 1 for b in rng.bytes(rng.range(1, 9))).hex()]:   # Go error texts hold no NUL (c10_custom_error_nul_refuted shows what a NUL would do)
                 kind = rng.choice(["ver", "pkt", "opt", "frag", "up", "down", "error"])
